@@ -43,6 +43,7 @@ backslash tokenises *to* (only that it does); quoting styles that leave the othe
 inside a quoted token (the parser nests quotes, "it's" is not a round trip and the statement speaks of
 "embedded quotes escaped"); Args.script_name (None for a string, argv[0] for a list).
 """
+import collections
 import itertools
 import resource
 import signal
@@ -65,9 +66,10 @@ BOUNDS_B = {
 }
 POOL_C = ["a b", "it's", 'q"x', "", "x=y", "--flag", "-f", "-vX Y", "--val=a b", "--val", "--", "é\t", "b\\\\",
           "--nope", "srv", "7", "-h"]
-BLOCK = 2048          # strings per watchdog period
-BLOCK_BUDGET = 30.0   # seconds for one block (normal: ~0.03 s)
-SINGLE_BUDGET = 5.0   # seconds for one string when confirming (normal: ~10 us)
+BLOCK = 1024          # items per watchdog period
+BLOCK_BUDGET = 10.0   # seconds for one block (normal: ~0.01 s for strings, ~1 s for the command lines of part (c))
+SINGLE_BUDGET = 3.0   # seconds for one item when confirming (normal: ~10 us / ~1 ms)
+_HUNG = False         # set in a worker process once it has a confirmed non-termination: the rest of its work is skipped
 
 
 class _Timeout(BaseException):
@@ -89,10 +91,11 @@ def _disarm():
 def watched(items, check, vs, nontrivial=None, cap=40):
     """check(item) -> list of violations, for every item of the (lazy) iterable, under the watchdog.
     Returns (items done, items for which nontrivial(item) holds)."""
+    global _HUNG
     signal.signal(signal.SIGALRM, _on_alarm)
     it = iter(items)
     n = nt = 0
-    while True:
+    while not _HUNG:
         block = list(itertools.islice(it, BLOCK))
         if not block:
             break
@@ -121,6 +124,8 @@ def watched(items, check, vs, nontrivial=None, cap=40):
                     _disarm()
                     vs.append(report.viol("non-termination", "tokenising did not finish within %.0f s" % SINGLE_BUDGET,
                                           _case_of(block[i]), "terminates", "still running"))
+                    _HUNG = True
+                    return n + i, nt
                 i += 1
         n += len(block)
         if nontrivial is not None:
@@ -332,6 +337,7 @@ def part_b(tier):
 # (c) command string vs argv list through the parser and the resolver
 # ------------------------------------------------------------------------------------------
 _WORLD = None
+_TALLY = collections.Counter()  # outcome kinds seen in part (c), per worker
 
 
 def world_c():
@@ -415,6 +421,7 @@ def check_c(case):
         for lenient in (False, True):
             o1 = _outcome(lambda: views(DefaultArgsParser().parse(sa, fmt, lenient)))
             o2 = _outcome(lambda: views(DefaultArgsParser().parse(aa, fmt, lenient)))
+            _TALLY["parse:%s" % ("ok" if isinstance(o2, list) else o2["raised"])] += 1
             if o1 != o2:
                 return [report.viol("equiv:parse", "parse(%s, lenient=%s) differs between the command string and the argv list" % (name, lenient),
                                     dict(case, format=name, lenient=lenient), o2, o1)]
@@ -426,6 +433,7 @@ def check_c(case):
 
     r1 = _outcome(lambda: resolve(sa))
     r2 = _outcome(lambda: resolve(aa))
+    _TALLY["resolve:%s" % (r2[0] if isinstance(r2, list) else r2["raised"])] += 1
     if r1 != r2:
         return [report.viol("equiv:resolve", "resolution differs between the command string and the argv list", case, r2, r1)]
     return []
@@ -438,17 +446,20 @@ def part_c(maxlen):
 
     def work(share):
         vs = []
+        _TALLY.clear()
         n, nt = watched(share, check_c, vs, lambda c: any(needs_quotes(t) for t in c["tokens"]) and any(t.startswith("-") for t in c["tokens"]))
-        return n, nt, vs
+        return n, nt, vs, dict(_TALLY)
 
     n = nt = 0
     vs = []
-    for c, t, v in par.pmap(work, par.chunks(cases, common.ncpu() * 4)):
+    tally = collections.Counter()
+    for c, t, v, tl in par.pmap(work, par.chunks(cases, common.ncpu() * 4)):
         n += c
         nt += t
         vs.extend(v)
+        tally.update(tl)
     vs.sort(key=lambda v: (len(v["case"]["tokens"]), len(v["case"].get("line", ""))))
-    return n, nt, len(lines), vs
+    return n, nt, len(lines), vs, dict(sorted(tally.items()))
 
 
 # ------------------------------------------------------------------------------------------
@@ -490,13 +501,16 @@ def main():
     rep.part("b-roundtrip", alphabet=ALPHA_B, boxes=[{"max_tokens": n, "max_token_length": m} for n, m in BOUNDS_B[rep.tier]],
              expressible_tokens_by_max_length=ntoks, all_tokens_by_max_length={m: sum(len(ALPHA_B) ** L for L in range(m + 1)) for m in ntoks},
              command_strings=nb, with_a_token_that_needs_quotes=ntb, separators=SEPS)
-    nc, ntc, nlines, vsc = part_c(lc)
+    nc, ntc, nlines, vsc, tally = part_c(lc)
     rep.merge(vsc)
     rep.part("c-equivalence", pool=POOL_C, max_tokens=lc, lines=nlines, cases=nc, formats=3, modes=2,
-             with_option_and_quoted_token=ntc)
+             with_option_and_quoted_token=ntc, outcomes=tally)
     rep.set("evaluations", na + na2 + nb + nc)
     rep.set("distinct_nontrivial", nta + ntb + ntc)
-    rep.set("exhaustive", True)
+    hung = any(v["sig"] == "non-termination" for v in rep.violations.values())
+    rep.set("exhaustive", not hung)
+    if hung:
+        rep.set("stopped", "a worker that confirmed a non-terminating input skipped the rest of its share")
     rep.set("rule", "(a) all strings <= %d over 7 characters; (b) all expressible token lists in the boxes x all quote styles per token x 16 layouts; "
                     "(c) all lines <= %d tokens over a 17-token pool x 3 quoting styles (x 3 formats x strict/lenient + resolution).  non-trivial = "
                     "(a) strings containing a quote or a backslash, (b) command strings with at least one token that needs quotes (empty, whitespace, "
